@@ -14,6 +14,7 @@
 import MxModel.Gen.KStaking
 import MxModel.Props.KFarmDex
 import MxModel.Lemmas.StakingSpec
+import MxModel.Lemmas.KTactic
 
 namespace Mx.KStaking
 open Mx Mx.Gen Mx.Staking
@@ -24,10 +25,8 @@ theorem get_amount_apr_bounded_eq (amount maxApr : Nat) :
     KStaking.get_amount_apr_bounded amount maxApr = some (aprPerBlock amount maxApr) := by
   have hP : MAX_PERCENT = 10000 := rfl
   have hB : BLOCKS_IN_YEAR = 5256000 := rfl
-  have h1 : ¬ (10000 = 0) := by omega
-  have h2 : ¬ (5256000 = 0) := by omega
-  simp only [KStaking.get_amount_apr_bounded, aprPerBlock, hP, hB, div?, if_neg h1, if_neg h2,
-    Option.bind_eq_bind, Option.bind_some]
+  k_defs [KStaking.get_amount_apr_bounded, aprPerBlock, hP, hB]
+  try k_solve
 
 /-- source `FarmStakingWrapper::mint_per_block_rewards` = model `mintOf` — the per-block amount
     capped by the APR bound on the STORED supply — and `last_reward_block_nonce := max last block`;
@@ -35,15 +34,9 @@ theorem get_amount_apr_bounded_eq (amount maxApr : Nat) :
 theorem mint_per_block_rewards_eq (block supply last maxApr perBlock : Nat) (produce : Bool) :
     KStaking.mint_per_block_rewards block supply last maxApr perBlock produce =
       some (mintOf block last perBlock produce supply maxApr, max last block) := by
-  by_cases h : block ≤ last
-  · have hmax : max last block = last := Nat.max_eq_left h
-    simp only [KStaking.mint_per_block_rewards, mintOf, if_pos h, hmax, Option.pure_def]
-  · have hle : last ≤ block := by omega
-    have hmax : max last block = block := Nat.max_eq_right hle
-    simp only [KStaking.mint_per_block_rewards, mintOf, hmax,
-      Mx.KFarm.calculate_per_block_rewards_eq, get_amount_apr_bounded_eq, h, false_or, sub?,
-      if_pos hle, Option.bind_eq_bind, Option.bind_some, Option.pure_def]
-    cases produce <;> rfl
+  k_defs [KStaking.mint_per_block_rewards, mintOf, Mx.KFarm.calculate_per_block_rewards_eq,
+    get_amount_apr_bounded_eq]
+  cases produce <;> k_solve
 
 /-- on a model state the source mints the model's `mintAmount` -/
 theorem mint_per_block_rewards_state (s : St) :
@@ -56,24 +49,14 @@ theorem mint_per_block_rewards_state (s : St) :
 theorem calculate_base_farm_rewards_eq (c : Cache) (dsc amt : Nat) (t : Attrs) :
     KStaking.calculate_base_farm_rewards amt t.rps dsc c.rps =
       if t.rps < c.rps ∧ dsc = 0 then none else some (baseReward c dsc amt t) := by
-  by_cases h : t.rps < c.rps
-  · have hle : t.rps ≤ c.rps := by omega
-    by_cases hd : dsc = 0
-    · simp only [KStaking.calculate_base_farm_rewards, gt_iff_lt, if_pos h, sub?, if_pos hle, div?,
-        if_pos hd, if_pos (And.intro h hd), Option.bind_eq_bind, Option.bind_some]
-    · have hn : ¬ (t.rps < c.rps ∧ dsc = 0) := fun c' => hd c'.2
-      simp only [KStaking.calculate_base_farm_rewards, baseReward, gt_iff_lt, if_pos h, sub?,
-        if_pos hle, div?, if_neg hd, if_neg hn, Option.bind_eq_bind, Option.bind_some]
-  · have hn : ¬ (t.rps < c.rps ∧ dsc = 0) := fun c' => h c'.1
-    simp only [KStaking.calculate_base_farm_rewards, baseReward, gt_iff_lt, if_neg h, if_neg hn,
-      Option.pure_def]
+  k_defs [KStaking.calculate_base_farm_rewards, baseReward]
+  k_solve
 
 /-- source `FarmStakingWrapper::calculate_rewards` = base reward + boosted claim -/
 theorem calculate_rewards_eq (c : Cache) (dsc amt boosted : Nat) (t : Attrs) (hd : dsc ≠ 0) :
     KStaking.calculate_rewards amt t.rps dsc c.rps boosted = some (baseReward c dsc amt t + boosted) := by
-  have hn : ¬ (t.rps < c.rps ∧ dsc = 0) := fun c' => hd c'.2
-  simp only [KStaking.calculate_rewards, calculate_base_farm_rewards_eq, if_neg hn,
-    Option.bind_eq_bind, Option.bind_some, Option.pure_def]
+  k_defs [KStaking.calculate_rewards, calculate_base_farm_rewards_eq]
+  k_solve
 
 /-- source `FarmStakingWrapper::generate_aggregated_rewards` in closed form, in the model's terms:
     it aborts when `accumulated > capacity`; `tot = min(minted, capacity − accumulated)`; for
@@ -93,29 +76,10 @@ theorem generate_aggregated_rewards_eq (dsc csupply rps reserve accd acc epoch b
           some (accd + genTotOf block last perBlock produce supply maxApr cap accd, r.2.2, max last block,
                 rps + rpsInc dsc r.1 csupply,
                 reserve + genTotOf block last perBlock produce supply maxApr cap accd) := by
-  by_cases hc : cap < accd
-  · have hc' : ¬ accd ≤ cap := by omega
-    simp only [KStaking.generate_aggregated_rewards, sub?, if_neg hc', if_pos hc, Option.bind_eq_bind,
-      Option.bind_none]
-  · have hc' : accd ≤ cap := by omega
-    simp only [KStaking.generate_aggregated_rewards, sub?, if_pos hc', if_neg hc,
-      mint_per_block_rewards_eq, Option.bind_eq_bind, Option.bind_some, Option.pure_def]
-    have hg : Nat.min (mintOf block last perBlock produce supply maxApr) (cap - accd) =
-        genTotOf block last perBlock produce supply maxApr cap accd := rfl
-    rw [hg]
-    generalize genTotOf block last perBlock produce supply maxApr cap accd = tot
-    by_cases h0 : tot = 0
-    · simp only [if_pos h0]
-    · simp only [if_neg h0]
-      cases KFarmDex.take_reward_slice tot acc epoch pct first with
-      | none => rfl
-      | some r =>
-        obtain ⟨base, cut, acc'⟩ := r
-        by_cases hs : csupply = 0
-        · have hs' : ¬ csupply > 0 := by omega
-          simp only [Option.bind_some, if_neg hs', rpsInc, if_pos hs, Nat.add_zero]
-        · have hs' : csupply > 0 := by omega
-          simp only [Option.bind_some, if_pos hs', rpsInc, if_neg hs, div?]
+  k_defs [KStaking.generate_aggregated_rewards, mint_per_block_rewards_eq, genTotOf, rpsInc,
+    Mx.KFarmDex.take_reward_slice_eq]
+  generalize mintOf block last perBlock produce supply maxApr = m
+  k_solve
 
 /-- MAIN: a successful model `generate` (after the first week started) is a successful run of the
     source's `FarmStakingWrapper::generate_aggregated_rewards` on the same cache and storage cells:
@@ -165,30 +129,57 @@ theorem generate_aggregated_rewards_over_capacity (dsc csupply rps reserve accd 
 theorem withdraw_rewards_check_eq (accd cap x : Nat) :
     KStaking.withdraw_rewards_check accd cap x =
       (sub? cap accd).bind fun remaining => (req (x ≤ remaining)).bind fun _ => sub? cap x := by
-  simp only [KStaking.withdraw_rewards_check, Option.bind_eq_bind, ge_iff_le, Option.pure_def]
-  cases hsub : sub? cap accd with
-  | none => rfl
-  | some r =>
-    rw [sub?_eq_some] at hsub
-    obtain ⟨_, rfl⟩ := hsub
-    by_cases hx : x ≤ cap - accd
-    · have hx' : x ≤ cap := by omega
-      simp only [Option.bind_some, req, if_pos hx, if_pos hx', sub?]
-    · simp only [Option.bind_some, req, if_neg hx, Option.bind_none]
+  k_defs [KStaking.withdraw_rewards_check]
+  k_solve
 
 /-- `topUpRewards` adds the payment to the capacity -/
 theorem top_up_rewards_update_eq (x cap : Nat) :
-    KStaking.top_up_rewards_update x cap = some (cap + x) := rfl
+    KStaking.top_up_rewards_update x cap = some (cap + x) := by
+  k_defs [KStaking.top_up_rewards_update]
+  try k_solve
 
 /-- `setMinUnbondEpochs` accepts exactly the values up to `MAX_MIN_UNBOND_EPOCHS` and stores them -/
 theorem try_set_min_unbond_epochs_eq (e : Nat) :
     KStaking.try_set_min_unbond_epochs e = if e ≤ MAX_MIN_UNBOND_EPOCHS then some e else none := by
   have hM : MAX_MIN_UNBOND_EPOCHS = 30 := rfl
-  by_cases h : e ≤ 30
-  · simp only [KStaking.try_set_min_unbond_epochs, hM, req, if_pos h, Option.bind_eq_bind,
-      Option.bind_some, Option.pure_def]
-  · simp only [KStaking.try_set_min_unbond_epochs, hM, req, if_neg h, Option.bind_eq_bind,
-      Option.bind_none]
+  k_defs [KStaking.try_set_min_unbond_epochs, hM]
+  try k_solve
+
+/-! ### unbonding and `claimRewardsWithNewValue` -/
+
+/-- the unbond token created by `unstakeFarm` unlocks at `current_epoch + min_unbond_epochs`
+    (the `.unbond (epoch + minUnbond)` metadata the model's `unstakeCore` writes) -/
+theorem unbond_unlock_epoch_eq (s : St) :
+    KStaking.unbond_unlock_epoch s.epoch s.minUnbond = some (s.epoch + s.minUnbond) := by
+  k_defs [KStaking.unbond_unlock_epoch]
+  try k_solve
+
+/-- `unbondFarm` pays only once the unlock epoch has been reached (the model's `req (unlock ≤ s.epoch)`) -/
+theorem unbond_guard_eq (unlock now : Nat) :
+    KStaking.unbond_guard unlock now = if unlock ≤ now then some () else none := by
+  k_defs [KStaking.unbond_guard]
+  k_solve
+
+/-- a successful model `unbondFarm` passes the source guard on the token's stored unlock epoch -/
+theorem unbondFarm_runs_source {s s' : St} {caller : Nat} {pay : Pay} {o : Out}
+    (h : unbondFarm s caller pay = some (s', o)) :
+    ∃ unlock, unbondOf s.md pay.1 = some unlock ∧ KStaking.unbond_guard unlock s.epoch = some () := by
+  simp only [unbondFarm, Option.bind_eq_bind, Option.bind_eq_some_iff, req_eq_some] at h
+  obtain ⟨_, _, _, _, unlock, hu, _, hle, _⟩ := h
+  exact ⟨unlock, hu, by rw [unbond_guard_eq, if_pos hle]⟩
+
+/-- the adjustment of `claimRewardsWithNewValue`: supply and the user's total position both lose the
+    old amount (checked) and gain the new one — the model's `newSupply` / `newUserTotal` on the two
+    cells.  Result (farm_token_supply, userTotalFarmPosition(orig)) -/
+theorem new_value_adjust_eq (ut : Nat → Nat) (orig supply amount nv : Nat) :
+    KStaking.new_value_adjust supply nv (ut orig) amount =
+      (newSupply supply amount (some nv)).bind fun s' =>
+        (newUserTotal ut orig amount (some nv)).map fun ut' => (s', ut' orig) := by
+  have hu : ∀ v : Nat, Weekly.upd ut orig v orig = v := fun v => by simp [Weekly.upd]
+  k_defs [KStaking.new_value_adjust, newSupply, newUserTotal]
+  repeat' (first | k_unfold | split)
+  all_goals try simp only [hu]
+  all_goals k_close
 
 example : KStaking.get_amount_apr_bounded 1000000000000 2500 = some 47564 := by decide
 example : KStaking.mint_per_block_rewards 110 1000000000000 100 2500 50000 true = some (475640, 110) := by
